@@ -75,7 +75,11 @@ def run_family(rep, model, name, scenarios, oracle, project=None, rule="", known
     project = project or (lambda t: t)
     plain = [strip_meta(sc) for sc in scenarios]
     impl = run_impl_many(plain, impl_opts)
-    mod = model.run([simnet.to_sx(sc) for sc in plain]) if model is not None else [None] * len(plain)
+    reqs = [simnet.to_sx(sc) for sc in plain] if model is not None else []
+    mod = model.run(reqs) if model is not None else [None] * len(plain)
+    if model is not None and not getattr(rep, "_watched", False):
+        rep._watched = True
+        rep.watch_extraction(model, reqs)
     n_dis = 0
     n_viol = 0
     first_dis = None
